@@ -171,6 +171,10 @@ Theorem C17_rxring_no_lost_wakeup : forall size script s s' code,
   RxRing.cw s' = false /\ (RxRing.cw s = true -> RxRing.cwakes s < RxRing.cwakes s').
 Proof. exact RxRingProofs.rx_task_no_lost_wakeup. Qed.
 
+(* the executable judgement of the `rxring` component accepts every run of the model *)
+Theorem C17_rxring_judge_model : forall case, RxRing.judge case (RxRing.run case) = true.
+Proof. exact RxRingProofs.rxring_judge_run. Qed.
+
 Print Assumptions C17_orderings.
 Print Assumptions C17_spsc_fifo_exactly_once.
 Print Assumptions C17_spsc_no_unwritten_slot.
@@ -184,3 +188,4 @@ Print Assumptions C17_cursor_fifo.
 Print Assumptions C17_rxring_no_lost_wakeup.
 Print Assumptions C17_cursor_judge_model.
 Print Assumptions C17_spsc_quiescent_wake.
+Print Assumptions C17_rxring_judge_model.
